@@ -270,4 +270,24 @@ def replay(ctx, case):
         out.append(Disc(sig, f"fixed rendering not recognised: {flags['fixed']}"))
     if case.get("kind") == "equiv" and syms["fixed"] != syms["plain"]:
         out.append(Disc(sig, "outline (names, kinds) of the fixed rendering differs from the free rendering"))
+    if "line" in case:
+        # the saved position of the fixed rendering: the definition must exist and land on the same word
+        import re
+
+        from harness.lsp import pos_params
+
+        root = os.path.join(ctx.scratch, "c14_r_fixed")
+        srv = Server(root=root, argv=fws.ARGV)
+        got = srv.request("textDocument/definition", pos_params(os.path.join(root, case["file"]), case["line"], case["col"] + 1))[0].get("result")
+        lines = re.split(r"\r\n|\n|\r", case["fixed"][case["file"]])
+        word = re.match(r"[\w$]+", lines[case["line"]][case["col"]:])
+        if not isinstance(got, dict):
+            out.append(Disc(sig, f"definition at {case['file']}:{case['line']}:{case['col']} ({lines[case['line']].strip()!r}) -> {got}"))
+        else:
+            tl = re.split(r"\r\n|\n|\r", case["fixed"][os.path.basename(got["uri"])])[got["range"]["start"]["line"]]
+            c = got["range"]["start"]["character"]
+            if word and tl[c : c + len(word.group(0))].lower() != word.group(0).lower():
+                out.append(Disc(sig, f"target column {c} of {tl!r} is not on {word.group(0)!r}"))
+            if "target" in case and [os.path.basename(got["uri"]), got["range"]["start"]["line"]] != list(case["target"]):
+                out.append(Disc(sig, f"definition lands on line {got['range']['start']['line']}, expected {case['target']}"))
     return out
